@@ -115,4 +115,127 @@ class ExtractSingle(Case):
         return [o(r[0]), text if isinstance(text, str) else None]
 
 
-CASES = [SliceLocated(), ExtractSingle()]
+class ExtractCompound(Case):
+    """CompoundInterval.extract_sequence (blocks appended in strand order through Sequence.append) on a parent with
+    symbolic text of ANY length, block count fixed: the i-th base is the parent base at the i-th mapped position of the
+    point-wise map (C01), complemented on the minus strand."""
+    props = ("C03",)
+    func = "location.location_impl.CompoundInterval.extract_sequence"
+    shard_depth = 3
+
+    def __init__(self, n):
+        self.n = n
+        self.name = f"CompoundInterval.extract_sequence[{n} blocks, symbolic parent text]"
+        self.call = "(lambda s: (len(s), s, s.parent.location if s.parent is not None else None))(loc.extract_sequence())"
+        self.ensures = {
+            "length": lambda i, r: r[0] == sum((e - s for s, e in zip(i.starts, i.ends)), 0),
+            "i-th-base-is-image-of-i-th-position": lambda i, r: Implies(
+                And(0 <= i.k, i.k < r[0]),
+                _char(r[1].sequence if hasattr(r[1], "attrs") else str(r[1]), i.k) == (
+                    _char(i.text, _pos(i, i.k)) if i.plus else _comp_code(_char(i.text, _pos(i, i.k))))),
+        }
+
+    def inputs(self, S):
+        from .gene_common import block_lists, strand_of
+        par, L = parent_with_sequence(S)
+        starts, ends = block_lists(S, "loc", self.n)
+        S.assume(ends[-1] <= L)
+        strand = strand_of(S, "strand")
+        loc = S.new(COMPOUND, starts, ends, strand, par)
+        seq = par.sequence
+        text = seq.sequence if hasattr(seq, "attrs") else str(seq)
+        plus = (strand.members[strand.idx][0] if hasattr(strand, "members") else strand.name) == "PLUS"
+        return NS(loc=loc, text=text, k=S.int("k"), q=S.int("q"), L=L, starts=starts, ends=ends, plus=plus)
+
+    def samples(self, rng):
+        from .gene_common import sample_blocks
+        d = sample_blocks(rng, "loc", self.n)
+        d.update(strand=rng.choice(["PLUS", "MINUS"]), k=rng.randint(0, 8), q=rng.randint(0, 20),
+                 seq="".join(rng.choice("ACGT") for _ in range(d["loc_ends"][-1] + rng.randint(0, 3))))
+        return d
+
+    def observe(self, r):
+        from pyvc.check import default_observe as o
+        from .c02_single import obs_loc
+        text = r[1].sequence if hasattr(r[1], "attrs") else str(r[1])
+        return [o(r[0]), text if isinstance(text, str) else None, obs_loc(r[2])[:3] if r[2] is not None else None]
+
+
+def _cov(loc, q):
+    from .c02_single import covers_pos
+    return covers_pos(loc, q)
+
+
+def _pos(i, t):
+    """parent position of relative position t (point-wise map of C01 written out for the fixed block count)."""
+    n = len(i.starts)
+    order = list(range(n)) if i.plus else list(range(n - 1, -1, -1))
+    expr = -1
+    pre = 0
+    parts = []
+    for k in order:
+        ln = i.ends[k] - i.starts[k]
+        parts.append((And(pre <= t, t < pre + ln), (i.starts[k] + (t - pre)) if i.plus else (i.ends[k] - 1 - (t - pre))))
+        pre = pre + ln
+    for cond, val in reversed(parts):
+        expr = If(cond, val, expr)
+    return expr
+
+
+class SplicedOnChunk(Case):
+    """FeatureInterval.get_spliced_sequence for a feature built on a sequence chunk (either strand) that contains it:
+    the i-th base is the CHROMOSOME base at the i-th mapped position of the feature (complemented on the minus
+    strand) - read from the chunk's text through the chunk offset / mirror, i.e. the same sequence the
+    whole-chromosome feature has (C07: 'its sequences equal the corresponding stretch of the whole-chromosome
+    sequences')."""
+    props = ("C03", "C07", "C04")
+    func = "gene.interval.AbstractFeatureInterval.get_spliced_sequence"
+    module = "gene.feature"
+    shard_depth = 3
+
+    def __init__(self, n):
+        self.n = n
+        self.name = f"FeatureInterval.get_spliced_sequence[{n} blocks, on a sequence chunk of either strand]"
+        self.call = "(lambda s: (len(s), s))(f.get_spliced_sequence())"
+        self.ensures = {
+            "length": lambda i, r: r[0] == sum((e - s for s, e in zip(i.starts, i.ends)), 0),
+            "i-th-base-is-the-chromosome-base-at-the-i-th-position": lambda i, r: Implies(
+                And(0 <= i.k, i.k < r[0]),
+                _char(r[1].sequence if hasattr(r[1], "attrs") else str(r[1]), i.k) == _chrom_base(i, _pos(i, i.k))),
+        }
+
+    def inputs(self, S):
+        from .gene_common import block_lists, strand_of, FEATURE
+        from .c04_liftover import chunk_parent_stranded
+        starts, ends = block_lists(S, "f", self.n)
+        strand = strand_of(S, "strand")
+        cp, cs, ce, minus = chunk_parent_stranded(S)
+        S.assume(And(cs <= starts[0], ends[-1] <= ce))
+        f = S.new(FEATURE, starts, ends, strand, parent_or_seq_chunk_parent=cp)
+        plus = (strand.members[strand.idx][0] if hasattr(strand, "members") else strand.name) == "PLUS"
+        return NS(f=f, text=S.symstr("chunk_seq"), k=S.int("k"), starts=starts, ends=ends, plus=plus, cs=cs, ce=ce,
+                  minus=minus)
+
+    def samples(self, rng):
+        from .gene_common import sample_blocks
+        d = sample_blocks(rng, "f", self.n, lo=2)
+        cs = rng.randint(0, d["f_starts"][0])
+        ce = d["f_ends"][-1] + rng.randint(0, 3)
+        d.update(strand=rng.choice(["PLUS", "MINUS"]), k=rng.randint(0, 8), chunk_start=cs, chunk_end=ce,
+                 chunk_strand=rng.choice(["PLUS", "MINUS"]), chunk_seq="".join(rng.choice("ACGT") for _ in range(ce - cs)))
+        return d
+
+    def observe(self, r):
+        from pyvc.check import default_observe as o
+        text = r[1].sequence if hasattr(r[1], "attrs") else str(r[1])
+        return [o(r[0]), text if isinstance(text, str) else None]
+
+
+def _chrom_base(i, p):
+    """base of the feature's strand at chromosome position p, read from the chunk text: a PLUS chunk holds chromosome
+    base p at index p-cs; a MINUS chunk holds its complement at index ce-1-p."""
+    plus_strand_base = _comp_code(_char(i.text, i.ce - 1 - p)) if i.minus else _char(i.text, p - i.cs)
+    return plus_strand_base if i.plus else _comp_code(plus_strand_base)
+
+
+CASES = [SliceLocated(), ExtractSingle(), ExtractCompound(2), ExtractCompound(3), SplicedOnChunk(1), SplicedOnChunk(2)]
